@@ -36,22 +36,33 @@ package ast
 //@ cellinv E_ast_Expr v: nodeOK(v)
 //@ cellinv E_ast_Stmt v: nodeOK(v)
 //@ cellinv MV_Str_ast_Expr v: nodeOK(v)
-//@ cellinv E_S_ast_VarStmt d: optNode(d.Initializer)
+//@ cellinv E_S_ast_VarStmt d: optNode(d.Initializer) && d.Name.Type == token.IDENTIFIER && d.Line == d.Name.Line
+// the line a node reports for diagnostics is the line of the token it is named after (C06)
+//@ typeinv ast.Identifier i: i.Line == i.Name.Line
+//@ typeinv ast.VarStmt d: d.Line == d.Name.Line
+// the token a node records is the token the grammar puts there (a name is an IDENTIFIER, the call's token is its ')')
+//@ cellinv H_ast_Identifier_Name t: t.Type == token.IDENTIFIER
+//@ cellinv H_ast_VarStmt_Name t: t.Type == token.IDENTIFIER
+//@ cellinv H_ast_AssignmentStmt_Name t: t.Type == token.IDENTIFIER
+//@ cellinv H_ast_FunctionStmt_Name t: t.Type == token.IDENTIFIER
+//@ cellinv H_ast_PropertyAccess_Property t: t.Type == token.IDENTIFIER
+//@ cellinv H_ast_PropertyAssignment_Property t: t.Type == token.IDENTIFIER
+//@ cellinv H_ast_Call_Paren t: t.Type == token.RIGHT_PAREN
 // a literal holds a number, a string, a boolean or nil: never an array or an object (String() formats it with %v)
 //@ cellinv H_ast_Literal_Value v: canon(v) && !isArr(v) && !isObj(v)
 
 // every listed property name of an object literal has an initialiser
-//@ typeinv ast.ObjectLiteral o: forall(k, 0, len(o.Keys), has(o.Properties, o.Keys[k].Lexeme) && nodeOK(o.Properties[o.Keys[k].Lexeme]) && lvl(o.Properties[o.Keys[k].Lexeme]) >= 0)
+//@ typeinv ast.ObjectLiteral o: forall(k, 0, len(o.Keys), o.Keys[k].Type == token.IDENTIFIER && has(o.Properties, o.Keys[k].Lexeme) && nodeOK(o.Properties[o.Keys[k].Lexeme]) && lvl(o.Properties[o.Keys[k].Lexeme]) >= 0)
 
 // C01: the shape every tree has -- a binary node's left child sits at least on the operator's ladder level, its right child
 // strictly above it (left association); prefix operators take an operand of level unary or above (they bind tighter than
 // '**'); suffixes apply to level call or above.
-//@ typeinv ast.Binary b: nodeOK(b.Left) && nodeOK(b.Right) && binLevel(b.Operator.Type) >= 3 && lvl(b.Left) >= binLevel(b.Operator.Type) && lvl(b.Right) > binLevel(b.Operator.Type)
+//@ typeinv ast.Binary b: nodeOK(b.Left) && nodeOK(b.Right) && binLevel(b.Operator.Type) >= 3 && lvl(b.Left) >= binLevel(b.Operator.Type) && lvl(b.Right) > binLevel(b.Operator.Type) && b.Line == b.Operator.Line
 //@ typeinv ast.Logical l: nodeOK(l.Left) && nodeOK(l.Right) && logLevel(l.Operator.Type) >= 1 && lvl(l.Left) >= logLevel(l.Operator.Type) && lvl(l.Right) > logLevel(l.Operator.Type)
-//@ typeinv ast.Unary u: isPrefixOp(u.Operator.Type) && nodeOK(u.Right) && lvl(u.Right) >= 12
+//@ typeinv ast.Unary u: isPrefixOp(u.Operator.Type) && nodeOK(u.Right) && lvl(u.Right) >= 12 && u.Line == u.Operator.Line
 //@ typeinv ast.Call c: nodeOK(c.Callee) && lvl(c.Callee) >= 13 && forall(k, 0, len(c.Arguments), nodeOK(c.Arguments[k]) && lvl(c.Arguments[k]) >= 0)
 //@ typeinv ast.ArrayAccess a: nodeOK(a.Array) && lvl(a.Array) >= 13 && nodeOK(a.Index) && lvl(a.Index) >= 0
-//@ typeinv ast.PropertyAccess a: nodeOK(a.Object) && lvl(a.Object) >= 13
+//@ typeinv ast.PropertyAccess a: nodeOK(a.Object) && lvl(a.Object) >= 13 && a.Line == a.Property.Line
 //@ typeinv ast.ArrayAssignment a: nodeOK(a.Array) && lvl(a.Array) >= 13 && nodeOK(a.Index) && nodeOK(a.Value)
 //@ typeinv ast.PropertyAssignment a: nodeOK(a.Object) && lvl(a.Object) >= 13 && nodeOK(a.Value)
 
